@@ -166,6 +166,40 @@ def requantizeRef (qmin qmax inputZp outputZp mult : Int) (shift : Int) (q : Int
   let output := multiplyByQuantizedMultiplier (q - inputZp) mult shift + outputZp
   max (min output qmax) qmin
 
+/-! ### TFLite `Quantize` prepare step: the multiplier of a requantisation comes from the **double** quotient
+    of the two (float32) tensor scales: `QuantizeMultiplier(double(in_scale) / double(out_scale))`.
+    Exact integer arithmetic; a positive finite double is `m · 2^e` with `m > 0`. -/
+
+/-- IEEE-754 round-to-nearest-even quotient of two positive doubles `m1·2^e1 / (m2·2^e2)` as `(q, k)` meaning
+    `q · 2^(-k)` with `2^52 ≤ q < 2^53` (normal range assumed: scales are far from overflow/underflow) -/
+def doubleQuotient (m1 : Nat) (e1 : Int) (m2 : Nat) (e2 : Int) : Nat × Int :=
+  -- smallest scaling k0 with floor(m1·2^k0 / m2) ≥ 2^52; bit lengths give it up to one
+  let l1 := Nat.log2 m1
+  let l2 := Nat.log2 m2
+  let k0 : Int := 52 + (l2 : Int) - (l1 : Int)
+  let quot (k : Int) : Nat × Nat × Nat :=          -- (floor, remainder, denominator) of m1·2^k / m2
+    if k ≥ 0 then let n := m1 * 2 ^ k.toNat; (n / m2, n % m2, m2)
+    else let d := m2 * 2 ^ (-k).toNat; (m1 / d, m1 % d, d)
+  let k := if (quot k0).1 ≥ 2 ^ 52 then k0 else k0 + 1
+  let (q, r, d) := quot k
+  let q := if 2 * r > d then q + 1 else if 2 * r = d ∧ q % 2 = 1 then q + 1 else q
+  -- value = q · 2^(-k) · 2^(e1 - e2)
+  if q = 2 ^ 53 then (2 ^ 52, k - 1 - (e1 - e2)) else (q, k - (e1 - e2))
+
+/-- TFLite `QuantizeMultiplier(double d, int32* quantized_multiplier, int* shift)` for `d = q·2^(-k)`,
+    `2^52 ≤ q < 2^53`: `frexp`, `round(q · 2^31)`, the `== 2^31` renormalisation.  Returns (multiplier, TFLite shift). -/
+def quantizeMultiplier (q : Nat) (k : Int) : Int × Int :=
+  let shift : Int := 53 - k                      -- frexp exponent: d = (q / 2^53) · 2^(53 - k)
+  let qFixed : Nat := (q + 2 ^ 21) / 2 ^ 22       -- round(q/2^53 · 2^31), ties away (std::round)
+  let (qFixed, shift) := if qFixed = 2 ^ 31 then (qFixed / 2, shift + 1) else (qFixed, shift)
+  if shift < -31 then (0, 0) else (qFixed, shift)
+
+/-- reference `Requantize` of one constant with the multiplier derived from the tensor scales -/
+def requantizeRefScales (qmin qmax inputZp outputZp : Int) (m1 : Nat) (e1 : Int) (m2 : Nat) (e2 : Int) (v : Int) : Int :=
+  let d := doubleQuotient m1 e1 m2 e2
+  let ms := quantizeMultiplier d.1 d.2
+  requantizeRef qmin qmax inputZp outputZp ms.1 ms.2 v
+
 /-- TFLite(-Micro) reference `HardSwish` quantised kernel, one element.
     `reluishExp`/`outputExp` are TFLite-convention exponents (`outputExp ≤ 0` is a `DCHECK` there). -/
 def hardSwishRef (qmin qmax inputZp outputZp outMult16 : Int) (outputExp : Int)
